@@ -48,7 +48,11 @@ ASSUMPTIONS = [
     "RecursionError is judged only for inputs whose bracket/indent/operator nesting is < 50 and "
     "only if it persists at a 20x larger recursion limit",
     "a slow case is a violation only if it takes >= 50x the expected time for its length twice",
-    "stage B never judges exceptions raised by executing user code, only the veneer state after",
+    "stage B never judges exceptions raised by executing user code, only the veneer state after; "
+    "its three entries are scenarioFromString, scenarioFromFile on a real file, and a correct "
+    "program importing a Scenic module that holds the mutant",
+    "half of the stage-A cases are compiled under the name of a real file holding the text (as "
+    "scenarioFromFile does), so that error texts are completed from the file",
 ]
 
 _fe = {}
@@ -141,13 +145,30 @@ def expected_seconds(src):
     return 0.05 + len(src) / 1500.0
 
 
-def judge_text(src, out, label="stageA"):
+def _stage_a_file(src):
+    """A real file holding src (errors of real files are completed from the file's text)."""
+    d = f"/var/tmp/vf-c10-{os.getpid()}"
+    os.makedirs(d, exist_ok=True)
+    path = os.path.join(d, "stageA.scenic")
+    with open(path, "wb") as f:
+        f.write(src.encode("utf-8"))
+    return path
+
+
+def judge_text(src, out, label="stageA", asfile=False):
     """Stage A on one text; failures are added to `out`.  Returns the outcome kind."""
     fe = front_end()
     nlines = count_lines(src)
+    filename = "<string>"
+    if asfile:
+        try:
+            filename = _stage_a_file(src)
+            label += ":file"
+        except (OSError, UnicodeEncodeError):
+            filename = "<string>"
     t0 = time.perf_counter()
     try:
-        run_pipeline(src)
+        run_pipeline(src, filename)
         kind = "ok"
     except fe["err"] as e:
         kind = "syntax-error"
@@ -166,7 +187,7 @@ def judge_text(src, out, label="stageA"):
             sys.setrecursionlimit(old * 20)
             try:
                 try:
-                    run_pipeline(src)
+                    run_pipeline(src, filename)
                     again = False
                 except RecursionError:
                     again = True
@@ -202,7 +223,7 @@ def judge_text(src, out, label="stageA"):
     if dt > 50 * expected_seconds(src) and kind != "recursion":
         t1 = time.perf_counter()
         try:
-            run_pipeline(src)
+            run_pipeline(src, filename)
         except BaseException as e:  # noqa - only the time matters here
             if isinstance(e, core.CaseTimeout):
                 raise
@@ -298,7 +319,13 @@ def _child_setup():
         pass
 
 
-def _compile_in_this_process(src, mode2D, seconds):
+_counter = [0]
+
+
+def _compile_in_this_process(src, mode2D, seconds, bmode="string"):
+    """bmode: 'string' = scenarioFromString(src); 'file' = scenarioFromFile of a real file holding
+    src; 'import' = a correct main program that imports a Scenic module holding src (the
+    current directory of the child is its scratch directory)."""
     import random
 
     import numpy
@@ -307,13 +334,31 @@ def _compile_in_this_process(src, mode2D, seconds):
     random.seed(0)
     numpy.random.seed(0)
     status = "returned"
+    _counter[0] += 1
+    name = f"vfmod_{os.getpid()}_{_counter[0]}"
+    path = os.path.join(os.getcwd(), name + ".scenic")
     try:
+        if bmode != "string":
+            with open(path, "wb") as f:
+                f.write(src.encode("utf-8"))
         with core.time_limit(seconds):
-            scenic.scenarioFromString(src, mode2D=mode2D)
+            if bmode == "file":
+                scenic.scenarioFromFile(path, mode2D=mode2D)
+            elif bmode == "import":
+                scenic.scenarioFromString(f"import {name}\nego = new Object\n", mode2D=mode2D)
+            else:
+                scenic.scenarioFromString(src, mode2D=mode2D)
     except core.CaseTimeout:
         status = "timeout"
     except BaseException as e:  # noqa: whatever user code or the compiler raised
         status = "raised:" + type(e).__name__
+    finally:
+        if bmode != "string":
+            try:
+                os.unlink(path)
+            except OSError:
+                pass
+            sys.modules.pop(name, None)
     return {"status": status, "state": _veneer_state()}
 
 
@@ -362,7 +407,8 @@ class StageBServer:
                         break
                     req = json.loads(body.decode())
                     res = json.dumps(_compile_in_this_process(
-                        req["src"], req["mode2D"], req["seconds"])).encode()
+                        req["src"], req["mode2D"], req["seconds"],
+                        req.get("bmode", "string"))).encode()
                     os.write(res_w, b"%08d" % len(res) + res)
             except BaseException:  # noqa
                 code = 3
@@ -390,10 +436,11 @@ class StageBServer:
             pass
         self.pid = None
 
-    def run(self, src, mode2D, seconds=20):
+    def run(self, src, mode2D, seconds=20, bmode="string"):
         if self.pid is None:
             self.start()
-        body = json.dumps({"src": src, "mode2D": mode2D, "seconds": seconds}).encode()
+        body = json.dumps({"src": src, "mode2D": mode2D, "seconds": seconds,
+                           "bmode": bmode}).encode()
         try:
             os.write(self.req_w, b"%08d" % len(body) + body)
             deadline = time.time() + seconds + 20
@@ -415,43 +462,45 @@ class StageBServer:
 _server = StageBServer()
 
 
-def run_stage_b(src, mode2D, seconds=20, fresh=False):
-    """(status, veneer state | None) of scenarioFromString(src) in a child process."""
+def run_stage_b(src, mode2D, seconds=20, fresh=False, bmode="string"):
+    """(status, veneer state | None) of compiling src in a child process."""
     if not fresh:
-        return _server.run(src, mode2D, seconds)
+        return _server.run(src, mode2D, seconds, bmode)
     one = StageBServer()
     try:
-        return one.run(src, mode2D, seconds)
+        return one.run(src, mode2D, seconds, bmode)
     finally:
         one.stop()
 
 
-def _stage_b_failures(src, status, state):
+def _stage_b_failures(src, status, state, bmode="string"):
     fails = []
     if state is None or status == "timeout":
         return fails
+    cell = "stageB" if bmode == "string" else f"stageB:{bmode}"
     if state["isActive"]:
-        fails.append(("stageB|veneer-still-active-after:" + status.split(":")[0],
-                      {"source": src, "status": status, "state": state}))
+        fails.append((f"{cell}|veneer-still-active-after:" + status.split(":")[0],
+                      {"source": src, "status": status, "state": state, "entry": bmode}))
         return fails
     for k, dflt in VENEER_DEFAULTS.items():
         if state.get(k) != dflt:
-            fails.append((f"stageB|veneer-global-not-reset:{k}",
-                          {"source": src, "status": status, "value": state.get(k)}))
+            fails.append((f"{cell}|veneer-global-not-reset:{k}",
+                          {"source": src, "status": status, "value": state.get(k),
+                           "entry": bmode}))
     return fails
 
 
-def judge_stage_b(src, mode2D, out, fresh=False):
-    status, state = run_stage_b(src, mode2D, fresh=fresh)
-    out.cls("B:" + status.split(":")[0])
+def judge_stage_b(src, mode2D, out, fresh=False, bmode="string"):
+    status, state = run_stage_b(src, mode2D, fresh=fresh, bmode=bmode)
+    out.cls("B:" + status.split(":")[0], "B-entry:" + bmode)
     if state is None or status == "timeout":
         out.cls("B:unjudged")
         return
-    fails = _stage_b_failures(src, status, state)
+    fails = _stage_b_failures(src, status, state, bmode)
     if fails and not fresh:
         # confirm in a process that has compiled nothing else
-        status2, state2 = run_stage_b(src, mode2D, fresh=True)
-        confirmed = {sig for sig, _ in _stage_b_failures(src, status2, state2)}
+        status2, state2 = run_stage_b(src, mode2D, fresh=True, bmode=bmode)
+        confirmed = {sig for sig, _ in _stage_b_failures(src, status2, state2, bmode)}
         if not confirmed:
             out.cls("B:not-reproduced-in-fresh-child")
         fails = [f for f in fails if f[0] in confirmed]
@@ -477,10 +526,18 @@ def judge_mutant(case):
     tok_ok = python_tokenizer_accepts(src)
     out.nontrivial = changed and tok_ok
     out.cls("tokenizes" if tok_ok else "python-tokenizer-rejects")
-    kind = judge_text(src, out)
+    kind = judge_text(src, out, asfile=bool(case.get("asfile")))
+    if case.get("asfile") and out.failures:
+        # a failure that the same text shows under the name "<string>" is not about files
+        plain = core.Outcome()
+        judge_text(src, plain, asfile=False)
+        plain_sigs = {sig for sig, _ in plain.failures}
+        out.failures = [(sig.replace("stageA:file|", "stageA|", 1)
+                         if sig.replace("stageA:file|", "stageA|", 1) in plain_sigs else sig, d)
+                        for sig, d in out.failures]
     if case.get("stageB") and kind in ("ok", "syntax-error") and not out.failures \
             and not STAGE_B_BANNED.search(src) and len(src) < 3000:
-        judge_stage_b(src, bool(case.get("mode2D")), out)
+        judge_stage_b(src, bool(case.get("mode2D")), out, bmode=case.get("bmode", "string"))
     for k in range(len(out.failures)):
         out.failures[k][1]["seed_program"] = p["id"]
     return out
@@ -667,6 +724,8 @@ def cases():
         "win": st.integers(0, 200),
         "muts": st.lists(mutation(), min_size=1, max_size=4),
         "stageB": st.sampled_from([False] * 9 + [True]),
+        "bmode": st.sampled_from(["string", "file", "import", "import"]),
+        "asfile": st.booleans(),
         "mode2D": st.booleans(),
     })
 
